@@ -9,7 +9,7 @@ spec implies (reference writer + reference reader of vlib.refmsg).
 
 import io
 
-from vlib import auxref, irbuild, pbt, refmsg, snapshot, spec as specmod, spectags
+from vlib import auxref, irbuild, pbt, refmsg, smallir, snapshot, spec as specmod, spectags
 
 ID = "C01"
 LEVEL = "exploration"
@@ -76,6 +76,12 @@ def run_case(case):
         res.fail(pbt.exception_bucket("C01:construction", e), repr(e))
         return res
     ir = B.ir
+    if case.get("foreign") is not None:
+        # an unrelated IR with tables of partly unknown types is loaded, read
+        # and saved in this process (before this IR's save, or before its load)
+        res.tag("foreign-ir-activity")
+        if case["foreign"] % 2 == 0:
+            smallir.foreign_activity(g, case["foreign"] // 2)
     snap_a = snapshot.snapshot(g, ir)
     want = refmsg.expected_snapshot(refmsg.from_spec(r, B.module_order))
     d = snapshot.diff(want, snap_a)
@@ -87,6 +93,8 @@ def run_case(case):
     except Exception as e:
         res.fail(pbt.exception_bucket("C01:save", e), repr(e))
         return res
+    if case.get("foreign") is not None and case["foreign"] % 2 == 1:
+        smallir.foreign_activity(g, case["foreign"] // 2)
     try:
         ir2 = g.IR.load_protobuf_file(io.BytesIO(data))
     except Exception as e:
@@ -296,7 +304,8 @@ def strategy():
     from hypothesis import strategies as st
 
     return st.fixed_dictionaries({"spec": specmod.specs(), "edits": st.one_of(st.just([]), st.lists(st.integers(0, 90), min_size=1, max_size=5)),
-                                  "edit_target": st.integers(0, 1)})
+                                  "edit_target": st.integers(0, 1),
+                                  "foreign": st.one_of(st.none(), st.none(), st.integers(0, 17))})
 
 
 def run_job(job):
